@@ -76,6 +76,7 @@ pub fn documented_defaults() -> CfgSpec {
         mae_steps: 0,
         window: Some(0.4f32.to_bits()),
         max_parameter: 14,
+        cfg_block: None,
     }
 }
 
